@@ -244,3 +244,28 @@ func (*PNM) isA() {}
 func init() {
 	ExtraProviderKinds = append(ExtraProviderKinds, ProviderKind{Name: "PNM", HasQual: true, New: func(b *Beh) any { c := &PNM{QCore: QCore{PCore{b}}}; b.Self = c; return c }}) // 22
 }
+
+// PNP: by-name points on a component that is itself a (pass-through, non-lazy) component post-processor.
+type PNP struct {
+	QCore
+	Buddy IA  `wire:"n1,required=false"`
+	Any   any `wire:"n2,required=false"`
+}
+
+func (*PNP) isA()                                                         {}
+func (*PNP) PostProcessBeforeInitialization(c any, n string) (any, error) { return c, nil }
+func (*PNP) PostProcessAfterInitialization(c any, n string) (any, error)  { return c, nil }
+
+// PLK: an ordinary provider with a look-alike method: Primary() bool is NOT the Primary marker (Primary()).
+type PLK struct{ QCore }
+
+func (*PLK) isA()          {}
+func (*PLK) isAB()         {}
+func (*PLK) Primary() bool { return false }
+
+func init() {
+	ExtraProviderKinds = append(ExtraProviderKinds,
+		ProviderKind{Name: "PNP", HasQual: true, New: func(b *Beh) any { c := &PNP{QCore: QCore{PCore{b}}}; b.Self = c; return c }}, // 23
+		ProviderKind{Name: "PLK", HasQual: true, New: func(b *Beh) any { c := &PLK{QCore{PCore{b}}}; b.Self = c; return c }},        // 24
+	)
+}
